@@ -362,6 +362,40 @@ func MockRecursiveSchemas() map[string]*ir.Request {
 	}
 }
 
+// MockVersionedSchema: two versions of one API in two packages (v1, v2) generated in ONE invocation,
+// with the same message and field names and different field_examples. The harness serves the file
+// named by `serve` ("v1" / "v2") whatever its position in file_to_generate (`v1First`): whichever
+// file a plugin handles second is served by one of the four combinations, and its answers must come
+// from its own examples. Strings and 64-bit integers only: the kinds the unchanged mock emitter
+// compiles for.
+func MockVersionedSchema(v1First bool, serve string) *ir.Request {
+	mkv := func(ver string, handles, levels, cities []string) *ir.File {
+		pkg := "users." + ver
+		P := "." + pkg + "."
+		f := &ir.File{Name: "users/" + ver + "/api.proto", Package: pkg, GoPackage: "example.com/gen/users/" + ver + ";users" + ver}
+		f.Messages = []*ir.Message{
+			{Name: "Home", Fields: []*ir.Field{{Name: "city", Number: 1, Kind: "string", Ann: ir.Ann{Examples: cities}}}},
+			{Name: "User", Fields: []*ir.Field{
+				{Name: "handle", Number: 1, Kind: "string", Ann: ir.Ann{Examples: handles}},
+				{Name: "level", Number: 2, Kind: "int64", Ann: ir.Ann{Examples: levels}},
+				{Name: "home", Number: 3, Kind: "message", TypeName: P + "Home"}}},
+			{Name: "Req", Fields: []*ir.Field{{Name: "q", Number: 1, Kind: "string"}}},
+		}
+		f.Services = []*ir.Service{{Name: "Users", BasePath: "/" + ver, Methods: []*ir.Method{{Name: "Get", Input: P + "Req", Output: P + "User", Config: &ir.HTTPConfig{Path: "/g", Method: "POST"}}}}}
+		return f
+	}
+	v1 := mkv("v1", []string{"alice", "bob"}, []string{"1", "2"}, []string{"Lyon"})
+	v2 := mkv("v2", []string{"@alice:example.org", "@bob:example.org"}, []string{"100", "200"}, []string{"Lyon, FR"})
+	primary := v2.Name
+	if serve == "v1" {
+		primary = v1.Name
+	}
+	if v1First {
+		return &ir.Request{Files: []*ir.File{v1, v2}, Generate: []string{v1.Name, v2.Name}, Primary: primary}
+	}
+	return &ir.Request{Files: []*ir.File{v1, v2}, Generate: []string{v2.Name, v1.Name}, Primary: primary}
+}
+
 // MockExamplesFor draws an example list for a single field of the given kind (matrix cells).
 func MockExamplesFor(r *R, kind string, tags *[]string) []string {
 	return mockExamples(r, kind, MockOpts{}, tags, []string{"COLOR_UNSPECIFIED", "COLOR_RED"})
